@@ -8,7 +8,26 @@
 #include <vector>
 #include <iostream>
 #include <sstream>
+#include <stdint.h>
 static int seed_calls; static unsigned keyseed;
+// ---- a portable Salsa20/20 block function (the specification's double rounds), used only for requests too long for the model runner: sampled
+// 64-byte blocks of a multi-gigabyte request are compared with Salsa20(key, nonce = request number, block counter = offset / 64)
+static inline uint32_t rotl32(uint32_t v, int c) { return (v << c) | (v >> (32 - c)); }
+static inline uint32_t ld32(const unsigned char* p) { return (uint32_t)p[0] | ((uint32_t)p[1] << 8) | ((uint32_t)p[2] << 16) | ((uint32_t)p[3] << 24); }
+static void salsa20_block(unsigned char out[64], const unsigned char key[32], uint64_t nonce, uint64_t ctr) {
+  uint32_t in[16], x[16];
+  in[0] = 0x61707865u; in[5] = 0x3320646eu; in[10] = 0x79622d32u; in[15] = 0x6b206574u;
+  for (int i = 0; i < 4; i++) { in[1 + i] = ld32(key + 4 * i); in[11 + i] = ld32(key + 16 + 4 * i); }
+  in[6] = (uint32_t)nonce; in[7] = (uint32_t)(nonce >> 32); in[8] = (uint32_t)ctr; in[9] = (uint32_t)(ctr >> 32);
+  memcpy(x, in, sizeof x);
+#define QR(a, b, c, d) x[b] ^= rotl32(x[a] + x[d], 7); x[c] ^= rotl32(x[b] + x[a], 9); x[d] ^= rotl32(x[c] + x[b], 13); x[a] ^= rotl32(x[d] + x[c], 18);
+  for (int r = 0; r < 10; r++) {
+    QR(0, 4, 8, 12) QR(5, 9, 13, 1) QR(10, 14, 2, 6) QR(15, 3, 7, 11)
+    QR(0, 1, 2, 3) QR(5, 6, 7, 4) QR(10, 11, 8, 9) QR(15, 12, 13, 14)
+  }
+#undef QR
+  for (int i = 0; i < 16; i++) { uint32_t v = x[i] + in[i]; out[4 * i] = (unsigned char)v; out[4 * i + 1] = (unsigned char)(v >> 8); out[4 * i + 2] = (unsigned char)(v >> 16); out[4 * i + 3] = (unsigned char)(v >> 24); }
+}
 namespace nfl { void randombytes(unsigned char* x, unsigned long long xlen) { seed_calls++; for (unsigned long long i = 0; i < xlen; i++) x[i] = (unsigned char)(keyseed + 7 * i + 1); } }
 namespace nfl { void fastrandombytes(unsigned char* r, unsigned long long rlen); }
 
@@ -21,6 +40,29 @@ int main() {
     size_t req = 0;
     while (is >> len) {
       size_t off = 64 + (req * 13) % 64;           // every alignment 0..63 over the history
+      if (len > (1UL << 30)) {
+        // a multi-gigabyte request: sampled blocks against the portable block function (first, last, around every multiple of 2^32 bytes, 256 others)
+        unsigned char* big = (unsigned char*)malloc(len + 256);
+        if (!big) { os << "huge:" << len << ":NOMEM "; req++; continue; }
+        memset(big, 0xCC, len + 256);
+        nfl::fastrandombytes(big + off, len);
+        unsigned char key[32]; for (int i = 0; i < 32; i++) key[i] = (unsigned char)(keyseed + 7 * i + 1);
+        std::vector<uint64_t> blocks; uint64_t nb = (len + 63) / 64;
+        for (uint64_t b = 0; b < 4 && b < nb; b++) { blocks.push_back(b); blocks.push_back(nb - 1 - b); }
+        for (uint64_t m = 1; m * (1ULL << 26) < nb + 4; m++) for (int d = -3; d <= 3; d++) { uint64_t b = m * (1ULL << 26) + d; if (b < nb) blocks.push_back(b); }
+        uint64_t z = 88172645463325252ULL; for (int i = 0; i < 256; i++) { z ^= z << 13; z ^= z >> 7; z ^= z << 17; blocks.push_back(z % nb); }
+        long long bad = -1;
+        for (uint64_t b : blocks) {
+          unsigned char ref[64]; salsa20_block(ref, key, (uint64_t)req, b);
+          size_t n = (size_t)((b * 64 + 64 <= len) ? 64 : len - b * 64);
+          if (memcmp(ref, big + off + b * 64, n) != 0) { for (size_t i = 0; i < n; i++) if (ref[i] != big[off + b * 64 + i]) { bad = (long long)(b * 64 + i); break; } break; }
+        }
+        bool canary = true;
+        for (size_t i = 0; i < off; i++) if (big[i] != 0xCC) canary = false;
+        for (size_t i = off + len; i < len + 256; i++) if (big[i] != 0xCC) canary = false;
+        os << "huge:" << len << ":"; if (bad < 0) os << "ok"; else os << "MISMATCH@" << bad; os << (canary ? " " : " CANARY-OVERWRITTEN ");
+        free(big); req++; continue;
+      }
       std::vector<unsigned char> buf(len + 256, 0xCC);
       nfl::fastrandombytes(buf.data() + off, len);
       bool canary = true;
